@@ -28,6 +28,7 @@ type Contract struct {
 	Pkg      string // package path the file belongs to ("" for deps files)
 	Mode     string // "bv" (default) or "int"
 	Sweep    bool   // generate safety obligations (bounds, nil, div, overflow)
+	SweepKinds []string // `sweep k1, k2`: only these kinds (slice.bounds, index.inbounds, ...); empty = all
 	Pure     bool   // declared side-effect free
 	Requires []*Clause
 	Captured []*Clause // closures: facts about by-value captured variables; assumed on entry, demanded where the closure is made
@@ -378,6 +379,9 @@ func (cs *ContractSet) parseFile(path, pkg string) error {
 				return fail("sweep outside func")
 			}
 			cur.Sweep = true
+			if rest != "" {
+				cur.SweepKinds = append(cur.SweepKinds, splitList(rest)...)
+			}
 		case "immutable":
 			if curRule == nil {
 				return fail("immutable outside callrule")
